@@ -327,7 +327,7 @@ func runP1(p *an.Prog, r *an.Result) {
 			}
 			// registry prune: the expression-argument path of ApplyFilter
 			for _, g := range an.GuardsAtInstr(pn) {
-				if g.True && an.IsCallTo(g.Cond, "expressions.isClosureInterfaceType") && len(closureFilters) == 0 {
+				if g.True && impliesClosureType(p, g.Cond, 0) && len(closureFilters) == 0 {
 					r.OK(name, construct, pos, fmt.Sprintf("dead: control-dependent on isClosureInterfaceType(param type), false for all %d registered filter signatures (rule F4)", len(roles.Filters)))
 					return
 				}
@@ -402,4 +402,63 @@ func fromReflectiveCall(p *an.Prog, v ssa.Value) bool {
 	}
 	visit(v, 0)
 	return found && ok
+}
+
+// impliesClosureType: v being true implies that expressions.isClosureInterfaceType answered true - v is that
+// call, a conjunction containing it (phi of false and it), the result of a module function all of whose
+// results are such values, or a boolean parameter that every call site fills with one.
+func impliesClosureType(p *an.Prog, v ssa.Value, depth int) bool {
+	if depth > 5 || v == nil {
+		return false
+	}
+	if b, ok := an.ConstBool(v); ok {
+		return !b
+	}
+	if an.IsCallTo(v, "expressions.isClosureInterfaceType") {
+		return true
+	}
+	switch x := v.(type) {
+	case *ssa.Phi:
+		for _, e := range x.Edges {
+			if !impliesClosureType(p, e, depth+1) {
+				return false
+			}
+		}
+		return len(x.Edges) > 0
+	case *ssa.Call:
+		callee := x.Call.StaticCallee()
+		if callee == nil || !p.InModule(callee) || callee.Blocks == nil {
+			return false
+		}
+		n := 0
+		ok := true
+		an.EachInstr(callee, func(in ssa.Instruction) {
+			if ret, isRet := in.(*ssa.Return); isRet && len(ret.Results) == 1 {
+				n++
+				if !impliesClosureType(p, ret.Results[0], depth+1) {
+					ok = false
+				}
+			}
+		})
+		return ok && n > 0
+	case *ssa.Parameter:
+		fn := x.Parent()
+		idx := -1
+		for i, pp := range fn.Params {
+			if pp == x {
+				idx = i
+			}
+		}
+		sites := callSitesOf(p, fn)
+		if idx < 0 || len(sites) == 0 {
+			return false
+		}
+		for _, s := range sites {
+			if idx >= len(s.Call.Args) || !impliesClosureType(p, s.Call.Args[idx], depth+1) {
+				return false
+			}
+		}
+		return true
+	}
+	return false
 }
